@@ -32,4 +32,16 @@ func genAnnSync(repo string) {
 		strings.Contains(cl, "ifcleaved{labelElems.add(op.CleavedLabel,elem)") && strings.Contains(cl, "}else{labelElems.add(op.Target,elem)}") &&
 			strings.Contains(cl, "forlabel,elems:=rangelabelElems{labelTKey:=NewLabelTKey(label)val,err:=json.Marshal(elems)") && strings.Contains(cl, "batch.Put(labelTKey,val)}if_,found:=labelElems[op.Target];!found{batch.Delete(NewLabelTKey(op.Target))}") &&
 			strings.Contains(cl, "iflen(targetElems)==0{returnnil}"), cl != "")
+	sl := sq("storeLabelElements")
+	emit("annLabelPostReplacesSamePos", "storeLabelElements adds each posted element to the list of the body under it, replacing the element at the same position and appending otherwise, then writes the list",
+		strings.Contains(sl, "forlabel,additions:=rangetoAdd{tk:=NewLabelTKey(label)elems,err:=getElementsNR(ctx,tk)") &&
+			strings.Contains(sl, "i,found:=emap[elem.Pos.MapKey()]if!found{elems=append(elems,elem)") && strings.Contains(sl, "elems[i]=elem") &&
+			strings.Contains(sl, "putBatchElements(batch,tk,elems)"), sl != "")
+	gl := sq("getLabelElements")
+	emit("annLabelSkipsZero", "getLabelElements files an element under the label at its position unless that label is 0",
+		strings.Contains(gl, "iflabels[i]!=0{"), gl != "")
+	dl := sq("deleteElementInLabel")
+	emit("annLabelDeleteRemovesAtPoint", "deleteElementInLabel removes the elements at the point from the list of the label under the point and writes the list",
+		strings.Contains(dl, "label,err:=labelData.GetLabelAtPoint(ctx.VersionID(),pt)") && strings.Contains(dl, "ifpt.Equals(elem.Pos){") &&
+			strings.Contains(dl, "elems=elems[:len(elems)-1]") && strings.Contains(dl, "putBatchElements(batch,tk,elems)"), dl != "")
 }
